@@ -38,6 +38,9 @@ SubDur(t, d) == IF Leq(T(d), T(t)) THEN Split(Minus(T(t), T(d)), SMAX) ELSE None
 Diff(a, b) == IF Leq(T(b), T(a)) THEN Split(Minus(T(a), T(b)), DMAX) ELSE None
 \* a <= b
 Before(a, b) == Leq(T(a), T(b))
+\* Duration -> time value (TryFrom<Duration> for TimeSpec): the same seconds and nanoseconds, None
+\* iff the seconds do not fit
+ToTime(d) == IF Leq(d.s, SMAX) THEN Some(d.s, d.ns) ELSE None
 
 (* the algebraic laws of the statement, as predicates on arbitrary t, u, d *)
 AsVal(r) == [s |-> r.s, ns |-> r.ns]
